@@ -4,6 +4,7 @@
 mod common;
 mod rng;
 mod c11;
+mod c16;
 
 use std::io::{BufWriter, Write};
 
@@ -23,6 +24,8 @@ fn main() {
             let seed: u64 = args.get(4).and_then(|s| s.parse().ok()).unwrap_or(1);
             match prop {
                 "C11" => c11::gen(tier, seed, &mut out),
+                "C16" => c16::gen(tier, seed, &mut out),
+                "C16path" => c16::gen_path(tier, seed, &mut out),
                 _ => {
                     eprintln!("unknown property {}", prop);
                     std::process::exit(2);
@@ -57,6 +60,12 @@ fn replay_one(toks: &[&str]) -> String {
             let cs: Vec<String> = toks[2][1..].split(',').map(|s| s.to_string()).collect();
             c11::observe(fmt, &cs)
         }
+        "C16" => c16::observe(toks),
+        "C16path" => c16::observe_path(&String::from_utf8(common::unhex(toks[1])).unwrap()),
+        "C16pp" => c16::observe_pair(
+            &String::from_utf8(common::unhex(toks[1])).unwrap(),
+            &String::from_utf8(common::unhex(toks[2])).unwrap(),
+        ),
         other => format!("unknown-model {}", other),
     }
 }
